@@ -8,6 +8,7 @@ import (
 	"os"
 	"sort"
 	"sync"
+	"time"
 
 	"github.com/oasisprotocol/curve25519-voi/curve"
 	"github.com/oasisprotocol/curve25519-voi/curve/scalar"
@@ -94,6 +95,18 @@ func lockEvent(k *keyring, e *cache.VerifEvent, cfg string) vt.Ev {
 	return vt.Ev{"op": e.Op, "cfg": cfg, "key": k.idOf(e.Key[:]), "cap": e.Capacity, "order": ord, "index": idx, "hseq": e.Seq}
 }
 
+// waitTimeout waits for the group; false when it did not finish in time (a library call hangs)
+func waitTimeout(wg *sync.WaitGroup, d time.Duration) bool {
+	done := make(chan struct{})
+	go func() { wg.Wait(); close(done) }()
+	select {
+	case <-done:
+		return true
+	case <-time.After(d):
+		return false
+	}
+}
+
 func recC18(c *ctx) {
 	r := c.r
 	col := &collector{}
@@ -177,7 +190,9 @@ func recC18(c *ctx) {
 			}(g)
 		}
 		close(start)
-		wg.Wait()
+		if !waitTimeout(&wg, 180*time.Second) {
+			c.abandon(vt.Ev{"op": "conc", "kind": "cache-api-results", "match": false, "timeout": true})
+		}
 		for _, e := range col.drain() {
 			c.w.EmitTo(shard, lockEvent(kr, e, c.cfg))
 		}
@@ -389,7 +404,9 @@ func concAPI(c *ctx, shard *int) {
 			match[g] = ok
 		}(g)
 	}
-	wg.Wait()
+	if !waitTimeout(&wg, 180*time.Second) {
+		c.abandon(vt.Ev{"op": "conc", "kind": "api-vs-sequential", "goroutine": -1, "match": false, "timeout": true})
+	}
 	for g, m := range match {
 		c.w.EmitTo(*shard, vt.Ev{"op": "conc", "cfg": c.cfg, "kind": "api-vs-sequential", "goroutine": g, "match": m})
 	}
